@@ -24,8 +24,9 @@ func verifHarness_C06_LeakFreedomPredeclared() {
 	r := vsNewRig(1)
 	p := vsPlatform("os", "linux")
 	rt.Assert(r.bq.RegisterPredeclaredPlatformQueue(digest.EmptyInstanceName, p, nil, 0, 0, []uint32{0}) == nil, "queue registered")
-	r.addClient("", r.addAction(1, p, false), 0, "inv-a", "inv-a-child")
-	r.addClient("", r.addAction(2, p, false), 0, "inv-b")
+	h := r.addAction(1, p, false)
+	r.addClient("", h, 0, "inv-a", "inv-a-child")
+	r.addClient("", h, 0, "inv-b", "inv-b-child")
 	r.addWorker("", p, 0, "w0")
 	o := &vsOpts{
 		maxExecs:    1,
